@@ -26,14 +26,15 @@ WorldCfg cfg_for(const std::string &p) {
 
 RunResult run_hist(const Plan &p, EventLog &log, RunStats &stats, Progress *prog) {
     RunResult rr;
-    asim::reset_run((unsigned char)p.knob("fill", 0xA5), p.knob("realloc", 0) ? asim::RA_INPLACE : asim::RA_MOVE);
+    asim::reset_run((unsigned char)p.knob("fill", 0xA5), p.knob("realloc", 0) ? asim::RA_INPLACE : asim::RA_MOVE, p.knob("reuse", 0) != 0);
     WorldCfg cfg = cfg_for(p.property);
     cfg.hookcfg = p.knob("hooks", 0) ? HK_BOTH : HK_DEFAULT;
     cfg.hist_faults = p.knob("faults", 0) != 0;
     if (cfg.hist_faults) stats.fault_counts["cfg_fault_injecting_run"]++;
     stats.fault_counts[cfg.hookcfg == HK_BOTH ? "cfg_custom_hooks" : "cfg_default_allocator"]++;
     stats.fault_counts[p.knob("realloc", 0) ? "cfg_realloc_inplace" : "cfg_realloc_move"]++;
-    uint64_t moved0 = asim::counters().realloc_moved, inpl0 = asim::counters().realloc_inplace, judged0 = stats.judged_steps;
+    if (p.knob("reuse", 0)) stats.fault_counts["cfg_allocator_reuses_released_blocks"]++;
+    uint64_t moved0 = asim::counters().realloc_moved, inpl0 = asim::counters().realloc_inplace, judged0 = stats.judged_steps, reused0 = asim::counters().reused;
     {
         World w(cfg, log, stats);
         w.profile = (int)p.knob("profile", 0);
@@ -53,6 +54,7 @@ RunResult run_hist(const Plan &p, EventLog &log, RunStats &stats, Progress *prog
     }
     stats.fault_counts["realloc_move"] += asim::counters().realloc_moved - moved0;
     stats.fault_counts["realloc_inplace"] += asim::counters().realloc_inplace - inpl0;
+    stats.fault_counts["released_block_reused"] += asim::counters().reused - reused0;
     cJSON_InitHooks(nullptr);
     asim::set_epoch(asim::EP_DEFAULT);
     rr.evaluations = stats.judged_steps - judged0;
